@@ -217,7 +217,77 @@ func (p *Project) WriteAlt(root string) error {
 }
 
 func (p *Project) writeWeatherSame(root string, a *altFiles) error {
-	dir := filepath.Join(root, "weather", "gen")
+	return p.writeWeatherSameDir(filepath.Join(root, "weather", "gen"), a)
+}
+
+// WriteWeatherLayoutTo writes the weather series with identical numbers in the given layout into
+// root/weather/<folder> (for projects that keep several layouts side by side; select one per batch
+// line with WeatherFileFormat / WeatherFolder / WeatherFile).
+func (p *Project) WriteWeatherLayoutTo(root, folder string, layout int) error {
+	return p.writeWeatherSameDir(filepath.Join(root, "weather", folder), &altFiles{weather: true, layout: layout})
+}
+
+// WriteAllEncodings adds, next to the files Write produced, the other encoding of every input:
+// fixed-width soil, CSV rotation, CSV measurement file, and the weather series as multi-year CSV
+// (weather/gen), one file per year (weather/gen0) and day-of-year layout (weather/gen2).
+func (p *Project) WriteAllEncodings(root string) error {
+	dir := filepath.Join(root, "project", p.Name)
+	w := func(name, content string) error { return os.WriteFile(filepath.Join(dir, name), []byte(content), 0o644) }
+	if err := w("soil_"+p.Name+".txt", p.SoilTxt()); err != nil {
+		return err
+	}
+	if err := w("crop_"+p.Name+".csv", p.RotationCSV(0)); err != nil {
+		return err
+	}
+	if err := w("endit_"+p.Name+".csv", p.MeasureCSV(1)); err != nil {
+		return err
+	}
+	for layout, folder := range []string{"gen0", "gen", "gen2"} {
+		if err := p.WriteWeatherLayoutTo(root, folder, layout); err != nil {
+			return err
+		}
+	}
+	return nil
+}
+
+// ShiftYears moves every date of the project (rotation, schedules, measurements, groundwater
+// series, weather, end date) by dy years; dy must be a multiple of 4 so that leap years stay leap
+// years (valid within 1901-2099). Call on a project in the default date format (DElong).
+func (p *Project) ShiftYears(dy int) {
+	end := p.End()
+	sh := func(d *Date) {
+		if d.Y != 0 {
+			d.Y += dy
+		}
+	}
+	for i := range p.Rot {
+		sh(&p.Rot[i].Sow)
+		sh(&p.Rot[i].Harvest)
+	}
+	for i := range p.Fert {
+		sh(&p.Fert[i].Date)
+	}
+	for i := range p.Irr {
+		sh(&p.Irr[i].Date)
+	}
+	for i := range p.Til {
+		sh(&p.Til[i].Date)
+	}
+	for i := range p.Meas {
+		sh(&p.Meas[i].Date)
+	}
+	for i := range p.GWSerie {
+		sh(&p.GWSerie[i].Date)
+	}
+	for i := range p.Weather {
+		sh(&p.Weather[i].Date)
+	}
+	sh(&p.WeatherStart)
+	end.Y += dy
+	p.SetEnd(end)
+}
+
+func (p *Project) writeWeatherSameDir(dir string, a *altFiles) error {
 	os.RemoveAll(dir)
 	if err := os.MkdirAll(dir, 0o755); err != nil {
 		return err
